@@ -822,6 +822,7 @@ class Ec(object):
             out.append(("ec", c, "arith"))
             out.append(("ec", c, "mul"))
         out.append(("ec", "high", "api"))
+        out.append(("ec", "pairs", "cross"))
         return out
 
     @staticmethod
@@ -863,6 +864,15 @@ class Ec(object):
             for curve in WCURVES + ECURVES + XCURVES:
                 for what in ("construct", "dh", "sign", "export"):
                     out.append(("ec", curve, "api", what))
+        elif part == "cross":
+            # operands that live on two DIFFERENT curves (coordinate arrays of different lengths), every ordered pair
+            allc = WCURVES + ECURVES + XCURVES
+            for c1 in allc:
+                for c2 in allc:
+                    if c1 != c2:
+                        for op in ("eq", "add", "iadd", "set", "keyeq", "dh"):
+                            for which in ("G", "inf"):
+                                out.append(("ec", c1, "cross", op, c2, which))
         return out
 
     @staticmethod
@@ -973,6 +983,38 @@ class Ec(object):
                 P = Ec.point(c, base)
                 P *= k
             Ec.touch(P, c)
+            return "ok"
+        if part == "cross":
+            from Crypto.PublicKey import ECC
+            _, _, _, op, c2, which = case
+            if c in XCURVES and op in ("add", "iadd"):
+                return "ok-na"                     # EccXPoint has no addition
+            P, Q = Ec.point(c, "7G"), Ec.point(c2, which)
+            if op == "eq":
+                _ = (P == Q), (P != Q)
+            elif op == "add":
+                Ec.touch(P + Q, c)
+            elif op == "iadd":
+                P += Q
+                Ec.touch(P, c)
+            elif op == "set":
+                P.set(Q)
+                Ec.touch(P, c2)
+            elif op in ("keyeq", "dh"):
+                if which == "inf":
+                    return "ok-na"
+                seedlen = {"ed25519": 32, "ed448": 57, "curve25519": 32, "curve448": 56}
+                ks = []
+                for cc in (c, c2):
+                    if cc in seedlen:
+                        ks.append(ECC.construct(curve=cc, seed=data(seedlen[cc], 1000)))
+                    else:
+                        ks.append(ECC.construct(curve=cc, d=scalar(20, "seed")))
+                if op == "keyeq":
+                    _ = (ks[0] == ks[1]), (ks[0].public_key() == ks[1].public_key()), (ks[0] != ks[1])
+                else:
+                    from Crypto.Protocol.DH import key_agreement
+                    key_agreement(static_priv=ks[0], static_pub=ks[1].public_key(), kdf=lambda x: x)
             return "ok"
         if part == "api":
             from Crypto.PublicKey import ECC
